@@ -176,6 +176,7 @@ class Ctx:
         self.extra = {}
         self.notes = []
         self.inconclusive = False
+        self.auto_twins = False
         self._scratch = None
         self.t0 = time.time()
 
@@ -251,6 +252,7 @@ class Ctx:
     def child(self, shard):
         c = Ctx(self.prop, self.tier, self.seed, shard)
         c.known_open = self.known_open
+        c.auto_twins = self.auto_twins
         return c
 
     def export(self):
@@ -341,6 +343,12 @@ class Ctx:
 def _worker(parent, fn, items, k, w):
     ctx = parent.child(k)
     try:
+        if parent.auto_twins:
+            # odd shards run dulwich with the pure-Python twins, even shards with the Rust extensions, so a
+            # defect in either implementation of parse_tree/apply_delta/... is visible to every property
+            from . import rustext
+
+            ctx.label("twins:" + rustext.use_twins("pure" if k % 2 else "rust"))
         for it in items:
             fn(ctx, it)
         out = ("ok", ctx.export())
